@@ -420,3 +420,120 @@ theorem projectRun_valid (id : Nat) (ops : List ChainOp) (c : Chain) (hv : ∀ o
       · exact hrest.2 r h' hm
 
 end Comdex.Feed
+
+namespace Comdex.Twa
+
+theorem foldl_seg_ops (ops : List COp) (a : Seg) (o : Op) (h : o ∈ (ops.foldl segStep a).ops) :
+    o ∈ a.ops ∨ COp.op o ∈ ops := by
+  induction ops generalizing a with
+  | nil => exact Or.inl h
+  | cons x t ih =>
+    rcases ih (segStep a x) h with h1 | h1
+    · cases x with
+      | op o' =>
+        simp only [segStep, List.mem_append, List.mem_singleton] at h1
+        rcases h1 with h1 | h1
+        · exact Or.inl h1
+        · subst h1; exact Or.inr (by simp)
+      | reconfigure c => simp [segStep] at h1
+    · exact Or.inr (by simp [h1])
+
+theorem foldl_seg_start (ops : List COp) (a : Seg) (h : ∃ c, COp.reconfigure c ∈ ops) :
+    (ops.foldl segStep a).start = none := by
+  induction ops generalizing a with
+  | nil => obtain ⟨c, hc⟩ := h; cases hc
+  | cons x t ih =>
+    by_cases ht : ∃ c, COp.reconfigure c ∈ t
+    · exact ih _ ht
+    · obtain ⟨c, hc⟩ := h
+      have hx : x = COp.reconfigure c := by
+        rcases List.mem_cons.mp hc with h1 | h1
+        · exact h1.symm
+        · exact absurd ⟨c, h1⟩ ht
+      subst hx
+      have hkeep : ∀ (l : List COp) (b : Seg), (∀ c, COp.reconfigure c ∉ l) → (l.foldl segStep b).start = b.start := by
+        intro l
+        induction l with
+        | nil => intro b _; rfl
+        | cons y l' ih' =>
+          intro b hn
+          cases y with
+          | op o => simp only [List.foldl_cons]; rw [ih' _ (fun c hm => hn c (by simp [hm]))]; rfl
+          | reconfigure c' => exact absurd (by simp) (hn c')
+      simp only [List.foldl_cons]
+      rw [hkeep t _ (fun c' hm => ht ⟨c', hm⟩)]; rfl
+
+theorem foldl_seg_start_keep (ops : List COp) (a : Seg) (h : ∀ c, COp.reconfigure c ∉ ops) :
+    (ops.foldl segStep a).start = a.start ∧ (ops.foldl segStep a).cfg = a.cfg := by
+  induction ops generalizing a with
+  | nil => exact ⟨rfl, rfl⟩
+  | cons y l ih =>
+    cases y with
+    | op o =>
+      simp only [List.foldl_cons]
+      have := ih (segStep a (.op o)) (fun c hm => h c (by simp [hm]))
+      exact this
+    | reconfigure c' => exact absurd (by simp) (h c')
+
+/-- the parameters of the last segment were installed by a reconfiguration of the history (if there is one) -/
+theorem foldl_seg_cfg_valid (l : List COp) (a : Seg) (hall : ∀ c, COp.reconfigure c ∈ l → c.N ≥ 1)
+    (hex : ∃ c, COp.reconfigure c ∈ l) : (l.foldl segStep a).cfg.N ≥ 1 := by
+  induction l generalizing a with
+  | nil => obtain ⟨c, hc⟩ := hex; cases hc
+  | cons x t ih =>
+    by_cases ht : ∃ c, COp.reconfigure c ∈ t
+    · exact ih _ (fun c hm => hall c (by simp [hm])) ht
+    · obtain ⟨c, hc⟩ := hex
+      have hx : x = COp.reconfigure c := by
+        rcases List.mem_cons.mp hc with h1 | h1
+        · exact h1.symm
+        · exact absurd ⟨c, h1⟩ ht
+      subst hx
+      simp only [List.foldl_cons]
+      rw [(foldl_seg_start_keep t _ (fun c' hm => ht ⟨c', hm⟩)).2]
+      exact hall c (by simp)
+
+end Comdex.Twa
+
+namespace Comdex.Feed
+open Comdex.Twa
+
+theorem erase_not_mem (bk : Books) (k : Nat) (h : k ∉ bk.map (·.1)) : bk.erase k = bk := by
+  unfold Books.erase
+  apply List.filter_eq_self.mpr
+  intro x hx
+  simp only [decide_eq_true_eq]
+  intro e; exact h (List.mem_map.mpr ⟨x, hx, e⟩)
+
+theorem deleteKeys_keeps (keys : List Nat) (bk : Books) (h : ∀ k ∈ keys, k ∉ bk.map (·.1)) : deleteKeys keys bk = bk := by
+  unfold deleteKeys
+  induction keys with
+  | nil => rfl
+  | cons k t ih =>
+    simp only [List.foldl_cons]
+    rw [erase_not_mem bk k (h k (by simp))]
+    exact ih (fun k' hk' => h k' (by simp [hk']))
+
+/-- the loop keyed by an id that is no asset id deletes NOTHING -/
+theorem deleteByScript_keeps (script : Nat) (bk : Books) (h : script ∉ bk.map (·.1)) : deleteByScript script bk = bk := by
+  apply deleteKeys_keeps
+  intro k hk
+  obtain ⟨_, _, e⟩ := List.mem_map.mp hk
+  subst e; exact h
+
+theorem configure_projects (id : Nat) (ops : List ChainOp) (c c' : Chain) (cfg : Cfg) (h : Int)
+    (hm : ChainOp.configure cfg h ∈ ops) (hr : chainRun c ops = .ok c') : COp.reconfigure cfg ∈ projectRun id c ops := by
+  induction ops generalizing c with
+  | nil => cases hm
+  | cons o t ih =>
+    simp only [chainRun] at hr
+    cases hs : chainStep c o with
+    | error e => rw [hs] at hr; cases hr
+    | ok c1 =>
+      rw [hs] at hr
+      simp only [projectRun, hs, List.mem_append]
+      rcases List.mem_cons.mp hm with h1 | h1
+      · subst h1; exact Or.inl (by simp [projectOp])
+      · exact Or.inr (ih c1 h1 hr)
+
+end Comdex.Feed
